@@ -548,11 +548,50 @@ func runC04R6(c *eng.Ctx, r *eng.RuleCtx) {
 			okRest = false
 			return true
 		}
+		// every assignment of the returned variable either builds it as a sum with initialDelay as a summand, or only
+		// post-processes the variable itself (v.Truncate(..), min(v, maxDelay)); any other assignment (half of it plus
+		// jitter, a fresh value) can fall below the initial delay
 		adds := false
-		for _, e := range eng.AssignedExprs(info, f.Decl.Body, v) {
-			if b, isB := ast.Unparen(e).(*ast.BinaryExpr); isB && b.Op == token.ADD && eng.UsesObj(info, b, init, false) {
-				adds = true
+		var isSumWithInit func(e ast.Expr) bool
+		isSumWithInit = func(e ast.Expr) bool {
+			e = ast.Unparen(e)
+			if eng.SelObj(info, e) == init {
+				if _, isIdent := e.(*ast.Ident); isIdent {
+					return true
+				}
 			}
+			if b, isB := e.(*ast.BinaryExpr); isB && b.Op == token.ADD {
+				return isSumWithInit(b.X) || isSumWithInit(b.Y)
+			}
+			return false
+		}
+		for _, e := range eng.AssignedExprs(info, f.Decl.Body, v) {
+			ex := ast.Unparen(e)
+			if b, isB := ex.(*ast.BinaryExpr); isB && b.Op == token.ADD && isSumWithInit(b) {
+				adds = true
+				continue
+			}
+			if cl, isC := ex.(*ast.CallExpr); isC {
+				if sel, isS := ast.Unparen(cl.Fun).(*ast.SelectorExpr); isS && eng.SelObj(info, sel.X) == types.Object(v) && (sel.Sel.Name == "Truncate" || sel.Sel.Name == "Round") {
+					continue
+				}
+				if mc := builtinCall(info, ex, "max"); mc != nil {
+					hasInit := false
+					for _, a := range mc.Args {
+						if eng.SelObj(info, a) == init {
+							hasInit = true
+						}
+					}
+					if hasInit {
+						adds = true
+						continue
+					}
+				}
+				if mc := builtinCall(info, ex, "min"); mc != nil && len(mc.Args) == 2 && (eng.SelObj(info, mc.Args[0]) == types.Object(v) || eng.SelObj(info, mc.Args[1]) == types.Object(v)) {
+					continue
+				}
+			}
+			okRest = false
 		}
 		if !adds {
 			okRest = false
